@@ -103,9 +103,9 @@ def gen_network(rng, profile):
     acc, egr = {}, {}
     # several candidate stops with different walks at both ends more often than not (selection rules, break conditions)
     for _ in range(rng.choice([1, 2, 2, 3, 3])):
-        acc[rng.randrange(ns)] = (rng.choice([0, 30, 100, 240, 1300]), rng.randint(0, 300))
+        acc[rng.randrange(ns)] = (rng.choice([0, 30, 60, 100, 120, 240, 300, 1300]), rng.randint(0, 300))
     for _ in range(rng.choice([1, 2, 2, 3, 3])):
-        egr[rng.randrange(ns)] = (rng.choice([0, 30, 100, 240, 1300]), rng.randint(0, 300))
+        egr[rng.randrange(ns)] = (rng.choice([0, 30, 60, 100, 120, 240, 300, 1300]), rng.randint(0, 300))
     scen = [dict(services=list(range(nsv)), onlyLines=[], exceptLines=[], onlyAgencies=[], exceptAgencies=[], onlyModes=[], exceptModes=[])]
     for _ in range(rng.randint(0, 3)):
         s = dict(services=rng.sample(range(nsv), rng.randint(1, nsv)), onlyLines=[], exceptLines=[], onlyAgencies=[], exceptAgencies=[], onlyModes=[], exceptModes=[])
@@ -332,6 +332,8 @@ def gen_twoends(rng):
     # origin side: the run from FAR leaves later and arrives later than the run from NEAR
     dn = t0 + rng.choice([0, 300, 600]); an = dn + rng.choice([300, 600])
     df = an + rng.choice([60, 300, 600]) - rng.choice([0, 300]); af = df + rng.choice([300, 600])
+    if rng.random() < 0.35:          # exact tie at the origin: both runs are left for at the same second once the walks count
+        df = dn - wnear + wfar; af = max(af, df + 300)
     paths.append((0, [NEAR, M], [10])); trips.append((0, 0, ids.pop(), [dn, an], [dn, an], [1, 1], [1, 1]))
     paths.append((1, [FAR, M], [10])); trips.append((1, 0, ids.pop(), [df, af], [df, af], [1, 1], [1, 1]))
     # destination side: two runs from M, to EN (arrives later, short walk) and to EF (arrives earlier, long walk)
@@ -339,14 +341,27 @@ def gen_twoends(rng):
     for r in range(rng.randint(1, 2)):
         d1 = base + r * 1800
         a_ef = d1 + rng.choice([300, 600]); a_en = a_ef + rng.choice([60, 300, 900])
+        if rng.random() < 0.4:       # exact tie at the destination: both ways reach the place at the same second
+            a_en = a_ef + gfar - gnear
         paths.append((2, [M, EF], [10])); trips.append((len(paths) - 1, 0, ids.pop(), [d1, a_ef], [d1, a_ef], [1, 1], [1, 1]))
         d2 = d1 + rng.choice([0, 120, 600])
         paths.append((2, [M, EN], [10])); trips.append((len(paths) - 1, 0, ids.pop(), [d2, max(a_en, d2 + 60)], [d2, max(a_en, d2 + 60)], [1, 1], [1, 1]))
+    # direct runs from one boarding stop to the two destination stops that reach the PLACE in the same second (or nearly): the
+    # one that leaves later is the answer; which destination stop the first pass keeps must not matter to the second pass
+    if rng.random() < 0.5:
+        tA = t0 + rng.choice([0, 600, 3600]); aA = tA + 1800
+        aB = aA + gnear - gfar + rng.choice([0, 0, 0, 1, -1, 60]); tB = tA + rng.choice([120, 300])
+        if tB < aB:
+            paths.append((2, [NEAR, EN], [10])); trips.append((len(paths) - 1, 0, ids.pop(), [tA, aA], [tA, aA], [1, 1], [1, 1]))
+            paths.append((2, [NEAR, EF], [10])); trips.append((len(paths) - 1, 0, ids.pop(), [tB, aB], [tB, aB], [1, 1], [1, 1]))
     if rng.random() < 0.5: rng.shuffle(trips)
     scen = [dict(services=[0], onlyLines=[], exceptLines=[], onlyAgencies=[], exceptAgencies=[], onlyModes=[], exceptModes=[])]
     hi = max(x for t in trips for x in t[3])
+    acc = [(FAR, wfar, 700), (NEAR, wnear, 50)]; egr = [(EN, gnear, 40), (EF, gfar, 800)]
+    if rng.random() < 0.5: acc.reverse()
+    if rng.random() < 0.5: egr.reverse()
     return dict(ns=ns, nag=1, nsv=1, foot=foot, lines=lines, paths=paths, trips=trips, scenarios=scen,
-                acc=[(FAR, wfar, 700), (NEAR, wnear, 50)], egr=[(EN, gnear, 40), (EF, gfar, 800)],
+                acc=acc, egr=egr,
                 cacheall=rng.choice([0, 1]), profile="twoends", t_hint=(t0 - 1500, hi + 1500))
 
 
